@@ -26,14 +26,19 @@ package pipc
 //@   layers contract trace
 //@   trace Scope.Wait as WAIT
 //@   trace Runner.Run as SUBMIT:$0.Name
-//@   trace AppendError as APPERR
+//@   trace Scope.BaseContextScope as BASE bind base
+//@   trace ContextScope.AppendError as APPERR
 //@   trace DoneTask as DONE
 //@   at_call Runner.Run requires $0.Context.Scope == parentScope
 //@   at_call Scope.Wait requires $recv == separatedScope
-//@   at_call AppendError requires $recv == parentScope
-//@   trace_ensures true : ^WAIT (SUBMIT:finally )?(APPERR )?(SUBMIT:fail )?(APPERR )?(SUBMIT:success )?(APPERR )?DONE $
+// the parent scope is closing while this goroutine runs (its Close waits for it) and
+// Scope.AppendError panics on a closed scope: failures go to the parent's context, never there
+//@   at_call Scope.BaseContextScope requires $recv == parentScope
+//@   at_call ContextScope.AppendError requires $recv == base
+//@   at_call Scope.AppendError requires false
+//@   trace_ensures true : ^BASE WAIT (SUBMIT:finally )?(APPERR )?(SUBMIT:fail )?(APPERR )?(SUBMIT:success )?(APPERR )?DONE $
 //@   trace_ensures deps.FinallyBody == "" : !SUBMIT:finally
-//@   trace_ensures deps.FinallyBody != "" : ^WAIT SUBMIT:finally
+//@   trace_ensures deps.FinallyBody != "" : ^BASE WAIT SUBMIT:finally
 //@   trace_ensures !(deps.FailBody != "" && catchErr != nil) : !SUBMIT:fail
 //@   trace_ensures !(deps.SuccessBody != "" && catchErr == nil) : !SUBMIT:success
 //@   trace_ensures deps.FailBody != "" && catchErr != nil : (SUBMIT:fail |APPERR )
